@@ -3,14 +3,154 @@
 #include "libcall.h"
 #include "model.h"
 #include "plan.h"
+#include "runner.h"
+
+#include <algorithm>
 
 namespace sim {
 
-void gen_c18(Plan &p, Rng &r, bool thorough) {
-  (void)p; (void)r; (void)thorough;
+namespace {
+
+const std::string &ltext(int idx) { return corpus_all()[idx].text; }
+
+std::string any_instr(Rng &r) {
+  unsigned w = (unsigned)r.below(100);
+  if (w < 50) return ltext(r.pick(corpus_instr()));
+  if (w < 75) {
+    for (int tries = 0; tries < 8; tries++) {
+      const std::vector<int> &v = corpus_by_len((int)r.range(1, 14));
+      if (!v.empty()) return ltext(r.pick(v));
+    }
+  }
+  if (w < 88 && !corpus_optsens().empty()) return ltext(r.pick(corpus_optsens()));
+  return ltext(r.pick(corpus_instr()));
 }
+
+std::vector<std::string> exec_prog(Rng &r, int n) {
+  std::vector<std::string> v;
+  for (int i = 0; i < n; i++) v.push_back(ltext(r.chance(1, 8) ? r.pick(corpus_rax()) : r.pick(corpus_safe())));
+  v.push_back(ltext(r.pick(corpus_rax())));
+  v.push_back(ltext(corpus_ret()));
+  return v;
+}
+
+uint64_t uid_of(Plan &p, uint64_t &ctr) { return mix64(p.seed * 1000003ULL + (uint64_t)p.run, ++ctr) & 0x7fffffffffffULL; }
+
+}  // namespace
+
+// ---------------------------------------------------------------------------------------------------
+// C18: 2..4 caller threads, each create / set options / assemble (plain, fitting, counting) / destroy
+void gen_c18(Plan &p, Rng &r, bool thorough) {
+  uint64_t ctr = 0;
+  auto mk = [&](int kind, int slot) {
+    Op o;
+    o.kind = kind;
+    o.slot = slot;
+    o.uid = uid_of(p, ctr);
+    return o;
+  };
+  p.fine = true;
+  p.world.mem_policy = (int)r.below(3);
+  int ntasks = 2 + (int)r.below(3);
+  for (int ti = 0; ti < ntasks; ti++) {
+    Task t;
+    int loops = 1 + (int)r.below(3);
+    for (int l = 0; l < loops; l++) {
+      bool internal = r.chance(1, 4);
+      Op c = mk(OP_CREATE, 0);
+      c.n = internal ? -1 : r.range(600, 4096);
+      c.fill = (int)r.below(2) ? 0xCC : 0x00;
+      c.guard = (int)r.below(2);
+      t.ops.push_back(c);
+      if (r.coin()) {
+        int n = 1 + (int)r.below(3);
+        for (int k = 0; k < n; k++) {
+          Op s = mk(OP_SETTER, 0);
+          s.which = (int)r.below(5);
+          static const int vals[] = {0, 1, 2, 0, 1, 2, 77};
+          s.value = vals[r.below(7)];
+          t.ops.push_back(s);
+        }
+      }
+      unsigned mode = (unsigned)r.below(10);  // 0..4 plain, 5..7 fitting, 8..9 counting
+      if (mode >= 5 && mode <= 7) {
+        Op ch = mk(OP_CHUNK, 0);
+        ch.c = r.range(2, 40);
+        t.ops.push_back(ch);
+      }
+      int calls = 1 + (int)r.below(3);
+      bool execp = r.coin();
+      for (int k = 0; k < calls; k++) {
+        Op a = mk(mode >= 8 ? OP_COUNT : OP_ASM, 0);
+        a.c = r.range(2, 32);
+        int nl = (int)r.range(1, 12);
+        if (execp && k == calls - 1)
+          a.lines = exec_prog(r, nl);
+        else if (execp)
+          for (int q = 0; q < nl; q++) a.lines.push_back(ltext(r.pick(corpus_safe())));
+        else
+          for (int q = 0; q < nl; q++) a.lines.push_back(r.chance(1, 10) ? ltext(r.pick(corpus_fillers())) : any_instr(r));
+        if (!execp && r.chance(1, 15) && !corpus_rejects().empty()) {
+          a.lines.insert(a.lines.begin() + (long)r.below(a.lines.size() + 1), ltext(r.pick(corpus_rejects())));
+        }
+        a.final_nl = r.coin();
+        t.ops.push_back(a);
+        if (r.chance(1, 6)) {
+          Op so = mk(OP_OFFSET, 0);
+          so.k = 0;
+          t.ops.push_back(so);
+        }
+      }
+      if (execp) t.ops.push_back(mk(OP_EXEC, 0));
+      t.ops.push_back(mk(OP_DESTROY, 0));
+    }
+    p.tasks.push_back(t);
+  }
+  // calibration: every caller alone, to learn how many yield points each one passes
+  RunResult cal = run_plan(p, RunOptions());
+  std::vector<long> steps = cal.task_steps;
+  steps.resize((size_t)ntasks, 1000);
+  unsigned style = (unsigned)r.below(10);
+  if (style < 6) {
+    // Bernoulli preemption with a per-run probability
+    static const long dens[] = {10, 30, 100, 300, 1000, 5000};
+    long den = dens[r.below(6)];
+    for (int ti = 0; ti < ntasks; ti++) {
+      long at = 0;
+      int guard = 0;
+      while (guard++ < 600) {
+        // geometric gap with mean `den`
+        long gap = 1;
+        uint64_t u = r.next() >> 11;
+        double x = (double)(u + 1) / 9007199254740993.0;
+        gap += (long)(-__builtin_log(x) * (double)den);
+        at += gap;
+        if (at >= steps[(size_t)ti]) break;
+        Preempt pr;
+        pr.task = ti;
+        pr.at = at;
+        pr.to = (int)r.below(8);
+        p.preempt.push_back(pr);
+      }
+    }
+  } else {
+    // sparse: 1..3 preemptions at uniformly random points (depth-bounded, PCT style)
+    int d = 1 + (int)r.below(thorough ? 4 : 3);
+    for (int k = 0; k < d; k++) {
+      Preempt pr;
+      pr.task = (int)r.below((uint64_t)ntasks);
+      pr.at = (long)r.below((uint64_t)std::max<long>(1, steps[(size_t)pr.task]));
+      pr.to = (int)r.below(8);
+      p.preempt.push_back(pr);
+    }
+    std::sort(p.preempt.begin(), p.preempt.end(), [](const Preempt &a, const Preempt &b) { return a.task != b.task ? a.task < b.task : a.at < b.at; });
+  }
+}
+
 void gen_c20(Plan &p, Rng &r, bool thorough) {
-  (void)p; (void)r; (void)thorough;
+  (void)p;
+  (void)r;
+  (void)thorough;
 }
 
 }  // namespace sim
